@@ -58,6 +58,8 @@ CallFunc(sig, args) ==
     [] sig = "ctx" -> IF Len(args) = 0 THEN Val(S(<<"c", "x">>)) ELSE Error                            \* func(*ExecutionContext) string: implicit parameter
     [] sig = "ctxv" -> IF \A i \in 1..Len(args) : args[i].k = "int"                                    \* func(*ExecutionContext, ...int) int: implicit parameter, then variadic
                          THEN Val(I(100 + (LET RECURSIVE Sm(_) Sm(i) == IF i > Len(args) THEN 0 ELSE args[i].n + Sm(i + 1) IN Sm(1)))) ELSE Error
+    [] sig = "ptrarg" -> IF Len(args) = 1 /\ args[1].k = "ptr" THEN Val(S(IF args[1].l = <<>> THEN <<"n", "i", "l">> ELSE <<"p", "t", "r">>)) ELSE Error   \* func(*T) string: a nil *T is a fine argument
+    [] sig = "nilv" -> IF Len(args) = 0 THEN Empty ELSE Error                                           \* func() *Value returning a nil pointer
     [] sig = "nilres" -> IF Len(args) = 0 THEN Empty ELSE Error                                        \* func() any returning nil
     [] OTHER -> Error
 
@@ -72,7 +74,8 @@ Settle(v, args, called) ==
 \* one step from value v; args/called: a call written directly after this step
 StepName(v, name, args, called) ==
   \* methods first (on the value as it is: pointer receivers only on pointers)
-  IF (v.k = "struct" /\ name \in MethodsOfStruct) \/ (v.k = "ptr" /\ v.l # <<>> /\ v.l[1].k = "struct" /\ name \in MethodsOfPtr)
+  \* (n = 1 marks a struct type without methods)
+  IF (v.k = "struct" /\ v.n = 0 /\ name \in MethodsOfStruct) \/ (v.k = "ptr" /\ v.l # <<>> /\ v.l[1].k = "struct" /\ v.l[1].n = 0 /\ name \in MethodsOfPtr)
     THEN CallFunc(name, args)
   ELSE LET w == IF v.k = "ptr" THEN (IF v.l = <<>> THEN Nil ELSE v.l[1]) ELSE v IN
        IF w.k = "nil" THEN Empty
